@@ -17,8 +17,8 @@ CONSTANTS Level,       \* 1: quick grid, 2: thorough grid
 S(x) == [k |-> "str", v |-> Chars(x)]
 Sy(x) == [k |-> "sym", v |-> Chars(x)]
 Ch(x) == [k |-> "chr", v |-> x]
-L(x) == [k |-> "list", v |-> x]
 Nil == [k |-> "nil"]
+L(x) == IF x = <<>> THEN Nil ELSE [k |-> "list", v |-> x]      \* the empty list is nil
 Big(s, neg) == [k |-> "int", neg |-> neg, ds |-> [i \in 1..Len(s) |-> DigitVal(SubSeq(s, i, i))]]
 DigitStr == <<"0", "1", "2", "3", "4", "5", "6", "7", "8", "9">>
 RECURSIVE NatStr(_)
